@@ -544,6 +544,9 @@ class Engine(Interp):
         if t is I:
             return ("i", v.ty, st.itv[v.vid], st.taint.get(v.vid))
         if t is Fl:
+            if isinstance(v.tag, tuple):
+                # compound expression trees: hashing them is linear in the (tree-expanded) size; such calls are not memoised
+                raise Unsupported("not memoisable")
             return ("f", v.lo, v.hi, v.nan, v.tag)
         if t is Ag:
             return ("a",) + tuple(self._sig(st, x, deep, depth + 1) for x in v.f)
